@@ -3,6 +3,10 @@ package harness
 import (
 	"bytes"
 	"fmt"
+	"reflect"
+	"strings"
+
+	"verif/pkg/bridge"
 
 	"verif/pkg/prng"
 	"verif/pkg/refcodec"
@@ -176,6 +180,13 @@ func runC01(c *Ctx) *Replay {
 	c.State("shape", pk.B.Schema.DefShape(pk.Def, 0))
 	data, spans := refcodec.EncodeSpans(pk.B.Schema, schema.Type{Named: pk.Type}, val.Normalise(pk.B.Schema, schema.Type{Named: pk.Type}, v))
 	c.Sample(map[string]interface{}{"program": pk.B.Name(), "type": pk.Type, "shape": pk.B.Schema.DefShape(pk.Def, 0), "wire_len": len(data)})
+	if viol := c.checkReadOnlyAPI(pk, v); viol != nil {
+		sc := base
+		sc.Extra = map[string]string{"api": "readonly"}
+		return c.reportPlain(&sc, viol)
+	} else if pk.Def.ReadOnly {
+		c.Count("readonly_api_checked", 1)
+	}
 	for _, e := range allEncoders {
 		for _, d := range allDecoders {
 			sc := base
@@ -203,6 +214,70 @@ func runC01(c *Ctx) *Replay {
 			if viol != nil {
 				return c.shrinkAndReport(&sc, viol)
 			}
+		}
+	}
+	return nil
+}
+
+// checkReadOnlyAPI exercises the API of a readonly struct: New<T>(fields...) must build the
+// value its arguments describe and every Get<Field>() must return that field.
+func (c *Ctx) checkReadOnlyAPI(pk *pick, v val.Value) *Violation {
+	t := pk.B.Types[pk.Type]
+	if t == nil || t.NewFunc == nil || !pk.Def.ReadOnly {
+		return nil
+	}
+	rec, err := c.N.fill(pk.B, pk.Type, v)
+	if err != nil {
+		return nil
+	}
+	rv := reflect.ValueOf(rec).Elem()
+	fn := reflect.ValueOf(t.NewFunc)
+	if fn.Kind() != reflect.Func || fn.Type().NumIn() != rv.NumField() {
+		return mismatch("readonly-api|constructor-arity", fmt.Sprintf("New%s takes %d arguments, the struct has %d fields", pk.Type, fn.Type().NumIn(), rv.NumField()), nil)
+	}
+	args := make([]reflect.Value, rv.NumField())
+	for i := range args {
+		args[i] = bridge.Field(rv, i)
+	}
+	var outs []reflect.Value
+	cr := safeCall(0, 0, func() { outs = fn.Call(args) })
+	if cr.Panicked {
+		return &Violation{Class: "panic", Signature: "panic|readonly-api|constructor", Detail: cr.PanicText()}
+	}
+	built := reflect.New(outs[0].Type())
+	built.Elem().Set(outs[0])
+	tt := schema.Type{Named: pk.Type}
+	got, err := bridge.FromGo(pk.B.Schema, tt, built.Elem(), nil)
+	if err != nil {
+		return mismatch("bridge|read", err.Error(), nil)
+	}
+	want := val.Canon(pk.B.Schema, tt, v)
+	if d := val.Diff(pk.B.Schema, tt, want, val.Canon(pk.B.Schema, tt, got)); d != "" {
+		return mismatch("readonly-api|constructor|"+pathShape(d), "New"+pk.Type+"(fields...) built a different value: "+d, nil)
+	}
+	for i, f := range pk.Def.Fields {
+		var m reflect.Value
+		for _, name := range []string{"Get" + strings.ToUpper(f.Name[:1]) + f.Name[1:], "Get" + strings.ToLower(f.Name[:1]) + f.Name[1:]} {
+			if m = built.MethodByName(name); m.IsValid() {
+				break
+			}
+		}
+		if !m.IsValid() {
+			continue
+		}
+		var res []reflect.Value
+		cr := safeCall(0, 0, func() { res = m.Call(nil) })
+		if cr.Panicked {
+			return &Violation{Class: "panic", Signature: "panic|readonly-api|getter", Detail: cr.PanicText()}
+		}
+		holder := reflect.New(res[0].Type()).Elem()
+		holder.Set(res[0])
+		gv, err := bridge.FromGo(pk.B.Schema, f.Type, holder, nil)
+		if err != nil {
+			continue
+		}
+		if d := val.Diff(pk.B.Schema, f.Type, val.Canon(pk.B.Schema, f.Type, want.Elems[i]), val.Canon(pk.B.Schema, f.Type, gv)); d != "" {
+			return mismatch("readonly-api|getter", fmt.Sprintf("Get%s() of %s returned a different value: %s", f.Name, pk.Type, d), nil)
 		}
 	}
 	return nil
